@@ -1,6 +1,6 @@
 use std::sync::LazyLock;
 
-use chrono::{Duration, Local, LocalResult, NaiveDate, NaiveDateTime, TimeZone, Timelike};
+use chrono::{Duration, Local, NaiveDate, NaiveDateTime, Timelike};
 use chrono_english::{parse_date_string, Dialect};
 use regex::Regex;
 
@@ -82,19 +82,13 @@ pub fn parse_datetime(s: &str) -> Result<(NaiveDateTime, NaiveDateTime), String>
                 }
             }
 
-            match Local.with_ymd_and_hms(year, month, day, 0, 0, 0) {
-                // midnight may occur twice (a clock falling back from 01:00 to 00:00): the day exists all the same
-                LocalResult::Single(date) | LocalResult::Ambiguous(date, _) => {
-                    let start = date
-                        .naive_local()
-                        .with_hour(hour_start)
-                        .and_then(|dt| dt.with_minute(min_start))
-                        .and_then(|dt| dt.with_second(sec_start));
-                    let finish = date
-                        .naive_local()
-                        .with_hour(hour_finish)
-                        .and_then(|dt| dt.with_minute(min_finish))
-                        .and_then(|dt| dt.with_second(sec_finish));
+            // the literal denotes wall-clock times of a calendar day: whether its midnight occurs once, twice
+            // (a clock falling back from 01:00 to 00:00) or not at all (a clock jumping from 00:00 to 01:00)
+            // in the local time zone, the day exists all the same
+            match NaiveDate::from_ymd_opt(year, month, day) {
+                Some(date) => {
+                    let start = date.and_hms_opt(hour_start, min_start, sec_start);
+                    let finish = date.and_hms_opt(hour_finish, min_finish, sec_finish);
 
                     match (start, finish) {
                         (Some(start), Some(finish)) => Ok((start, finish)),
